@@ -23,7 +23,7 @@ from ...requestcache import RequestCache
 from ...taskmanager import task
 from ..interfaces.dispatcher.endpoint import DispatcherEndpoint
 from .caches import CreatedRequestCache, CreateRequestCache, PingRequestCache, RetryRequestCache, TestRequestCache
-from .crypto import CryptoEndpoint, PythonCryptoEndpoint, TunnelCrypto
+from .crypto import CryptoEndpoint, CryptoException, PythonCryptoEndpoint, TunnelCrypto
 from .endpoint import TunnelEndpoint
 from .exit_socket import DataChecker, TunnelExitSocket
 from .payload import (
@@ -628,11 +628,20 @@ class TunnelCommunity(Community):
             shared_secret = self.crypto.verify_and_generate_shared_secret(hop.dh_secret, payload.key, payload.auth,
                                                                           hop.peer.public_key.get_crypt_pk())
             session_keys = self.crypto.generate_session_keys(shared_secret)
-            hop.keys = session_keys
 
         except ValueError:
             self.remove_circuit(circuit.circuit_id, "error while verifying shared secret")
             return
+
+        # The authenticator only covers the ephemeral half of the shared secret. The candidate list was encrypted with
+        # the session keys: if it does not decrypt, the other side does not hold the keys we derived, and the answer
+        # is refused like one that fails the authenticator (before anything about the circuit changes).
+        try:
+            candidates_bin = session_keys.decrypt_str(payload.candidates_enc, FORWARD)
+        except (RuntimeError, ValueError) as e:
+            msg = f"Answer for circuit {circuit_id} does not confirm the session keys"
+            raise CryptoException(msg) from e
+        hop.keys = session_keys
 
         circuit.unverified_hop = None
         circuit.add_hop(hop)
@@ -640,8 +649,6 @@ class TunnelCommunity(Community):
         self.logger.info("Added hop %d (%s) to circuit %d", len(circuit.hops), hop.peer, circuit.circuit_id)
 
         if circuit.state == CIRCUIT_STATE_EXTENDING:
-            candidates_enc = payload.candidates_enc
-            candidates_bin = session_keys.decrypt_str(candidates_enc, FORWARD)
             candidates, _ = self.serializer.unpack("varlenH-list", candidates_bin)
             candidates = cast("list[object]", candidates)
 
